@@ -900,6 +900,9 @@ pub fn gen_name_parts(rng: &mut Rng, dir: &Path, naming: NamingK, allow_ts: bool
         1 => Some("node_7".to_string()),
         2 => Some("my_r".to_string()),
         3 => Some("rCURRENT".to_string()),
+        // an empty discriminant: by the documented composition it contributes its separator only
+        // (and nothing at all when there is no basename either)
+        4 if rng.chance(1, 2) => Some(String::new()),
         _ => None,
     };
     let suffix = match rng.below(6) {
